@@ -1,5 +1,6 @@
 #include "simfs.h"
 #include "sched.h"
+#include "simrandom.h"
 #include <algorithm>
 #include <cerrno>
 #include <cstdio>
@@ -228,6 +229,9 @@ int __wrap_fclose(FILE * f)
 }
 ssize_t __wrap_read(int fd, void * buf, size_t n)
 {
+  // thread mode: every read issued by a simulated task is a schedule point (lazy loading of catalogue
+  // lists and gA tables happens inside the library's first-use paths)
+  if (sim::sched::io_points() && sim::sched::current_task() >= 0) sim::sched_point(sim::SP_IO, fd);
   State & s = S();
   if (s.fds.empty()) return __real_read(fd, buf, n);
   auto it = s.fds.find(fd);
